@@ -57,6 +57,14 @@ Definition match_small (sh : Z) (o : qobs) (r : qres) : bool :=
   | _ => false
   end.
 
+(* an integer mass w (unit 1/2^sh) below 2^-999: the float PMF of such a bucket may have underflowed to 0 *)
+Definition negligible (sh : Z) (w : Q) : bool := Qle_bool w 0 || (Z.log2 (Qnum w) + 1000 <=? sh).
+Definition conf_ge_c (P : Z -> Q) (sh : Z) (c : Q) (o : qobs) : bool :=
+  match o_conf o with
+  | XFin cf => if Qle_bool c cf then true else negligible sh (P (o_lo o - 1)) && negligible sh (P (o_hi o))
+  | _ => false
+  end.
+
 (* the property's own order claim, checked on the observation itself, for every c *)
 Definition orders_ok (n : Z) (o : qobs) : bool :=
   (0 <=? o_lo o) && (o_lo o <? o_hi o) && (o_hi o <=? n + 1).
@@ -100,7 +108,11 @@ Definition check_small_item (P : Z -> Q) (n : Z) (x : Z) (qbits : Z) (g : list (
                (Z.lor (if (o_lo o =? 0) && (o_hi o =? n + 1) then 16 else 0)
                       (if (1 <? Z.of_nat (length outs)) then 32 else 0))))) in
     if existsb (match_small (e * n) o) outs
-    then ((if (1 <? Z.of_nat (length outs)) then V_BORDERLINE else V_OK), tag, [])
+    then (* "Confidence is at least c", on the observed floats themselves: the loop leaves only when
+            accum >= confidence — or when neither neighbour bucket has any mass left (float PMF zero: the exact
+            mass is zero or far below the underflow threshold), and it reports accum *)
+         if conf_ge_c P (e * n) c o then ((if (1 <? Z.of_nat (length outs)) then V_BORDERLINE else V_OK), tag, [])
+         else (V_MISMATCH, tag, [12])
     else (V_MISMATCH, tag,
           match outs with
           | r :: _ => [2; r_lo r; r_hi r; (if r_amb r then 1 else 0); Qnum (r_conf r); e * n; Z.of_nat (length outs)]
